@@ -2,10 +2,12 @@ package hls
 
 import (
 	"bytes"
+	"errors"
 	"io"
 	"strconv"
 	"strings"
 
+	"github.com/cnotch/ipchub/av/codec/aac"
 	"github.com/cnotch/ipchub/av/format/mpegts"
 	"github.com/cnotch/ipchub/zzverif/symapi"
 )
@@ -15,17 +17,22 @@ type verifFile struct {
 	opened, closed, deleted int
 	frames                  []*mpegts.Frame
 	payloads                [][]byte
+	failWrites              int // the next failWrites writes fail (disk full, closed file)
 }
 
 func (f *verifFile) open(path string) error { f.opened++; return nil }
-func (f *verifFile) close() error            { f.closed++; return nil }
+func (f *verifFile) close() error           { f.closed++; return nil }
 func (f *verifFile) writeFrame(fr *mpegts.Frame) error {
+	if f.failWrites > 0 {
+		f.failWrites--
+		return errors.New("write failed")
+	}
 	f.frames = append(f.frames, fr)
 	f.payloads = append(f.payloads, append([]byte(nil), fr.Payload...))
 	return nil
 }
 func (f *verifFile) get() (io.Reader, int, error) { return bytes.NewReader(nil), 0, nil }
-func (f *verifFile) delete() error                 { f.deleted++; return nil }
+func (f *verifFile) delete() error                { f.deleted++; return nil }
 
 // VerifPlaylistWindow: from any playlist of k consecutive segments, adding the next keeps the
 // last three, still consecutive, and deletes every dropped segment exactly once.
@@ -329,5 +336,46 @@ func VerifM3u8Stable() {
 		pl.M3u8("bob-token-that-is-longer")
 	}
 	symapi.Assert(string(b1) == snapshot, "served-playlist-unchanged-by-later-fetches")
+	symapi.Reach("end")
+}
+
+// VerifAudioCacheInvariant (C09 / C10): the audio batch of the segment generator: "no cached
+// frame => empty batch buffer" holds after every flush, also one whose segment write fails;
+// so the next audio PES holds exactly the frames batched after the flush (ADTS lengths chain).
+func VerifAudioCacheInvariant() {
+	pl := NewPlaylist()
+	cur := &verifFile{}
+	sg := &SegmentGenerator{playlist: pl, path: "/live/a", hlsFragment: 5, memory: true, sequenceNo: 3, audioRate: 44100, aacJitter: newHlsAacJitter()}
+	sg.current = &segment{sequenceNo: 3, file: cur, uri: "cur"}
+	mk := func(pts int64, b byte, n int) *mpegts.Frame {
+		p := make([]byte, n)
+		for i := range p {
+			p[i] = b
+		}
+		h := aac.NewADTSHeader(1, 4, 2, n)
+		return &mpegts.Frame{Pid: 257, StreamID: 0xc0, Pts: pts, Dts: pts, Header: h[:], Payload: p}
+	}
+	// an arbitrary batch: 1..3 frames cached
+	k := symapi.IntRange("batched", 1, 3)
+	for i := 0; i < k; i++ {
+		symapi.Assert(sg.WriteMpegtsFrame(mk(int64(i)*2089, byte(0xA0+i), 3+i)) == nil, "batching-ok")
+	}
+	symapi.Assert(sg.afCache != nil && len(cur.frames) == 0, "batch-pending")
+	if symapi.Bool("segmentWriteFails") {
+		cur.failWrites = 1
+	}
+	sg.flushAudioCache()
+	symapi.Assert(sg.afCache == nil && sg.afCacheBuff.Len() == 0, "no-cached-frame-means-empty-batch-buffer")
+	// the next batch holds exactly its own frames
+	f1 := mk(20000, 0xB1, 4)
+	f2 := mk(22089, 0xB2, 5)
+	sg.WriteMpegtsFrame(f1)
+	sg.WriteMpegtsFrame(f2)
+	before := len(cur.frames)
+	sg.flushAudioCache()
+	symapi.Assert(len(cur.frames) == before+1, "one-audio-pes-per-batch")
+	pes := cur.payloads[len(cur.payloads)-1]
+	symapi.Assert(len(pes) == 4+7+5, "batch-payload-is-frame1 + adts2 + frame2")
+	symapi.Assert(pes[0] == 0xB1 && pes[3] == 0xB1 && pes[4] == 0xff && pes[11] == 0xB2 && pes[15] == 0xB2, "adts-chain-of-the-new-batch-intact")
 	symapi.Reach("end")
 }
